@@ -324,7 +324,7 @@ fn run(line: &str) -> String {
     // started (or died)?
     wait_until(3000, || verif::with_inst(port, |i| !i.log.is_empty()));
     std::thread::sleep(Duration::from_millis(2));
-    let dead = |port: u16| verif::with_inst(port, |i| i.exited.is_some());
+    let dead = |port: u16| verif::with_inst(port, |i| i.exited.is_some() || i.log.len() > 200_000);
 
     // phase 0: describes known before anybody connects
     for d in &pre {
@@ -487,14 +487,20 @@ fn run(line: &str) -> String {
         c.stop.store(true, Ordering::Release);
     }
     std::thread::sleep(Duration::from_millis(6));
-    let (log, panicked, planleft) =
-        verif::with_inst(port, |i| (i.log.clone(), i.exited == Some(true), i.plan.len()));
+    let (log, panicked, planleft, spinning) = verif::with_inst(port, |i| {
+        let n = i.log.len();
+        (i.log.iter().take(4000).cloned().collect::<Vec<_>>(), i.exited == Some(true), i.plan.len(), n > 200_000)
+    });
+    if spinning {
+        served = false;
+    }
     let mut out = String::new();
     out.push_str(&format!(
-        "served={} quiet={} panic={} nudges={} resync={} planleft={} ",
+        "served={} quiet={} panic={} spin={} nudges={} resync={} planleft={} ",
         served as u8,
         quiet as u8,
         panicked as u8,
+        spinning as u8,
         nudges,
         pace.resync.load(Ordering::Relaxed),
         planleft
